@@ -173,6 +173,18 @@ def run(ctx):
         def info(self, *a, **k):
             return None
     c01.clause_e(NameOnly(ctx), fx, config=C)
+    # ---- M6: "the same claims, strategy and salts give identical output": nothing an earlier issuance left in the issuer instance can
+    # reach a later output (the field-flow rule of C11.S re-judged on the mock_salts MIR for the issuer)
+    st6 = c11.stale_fields(fx, imodel.ISTRUCT, imodel.ISSUE)
+    if st6 is None:
+        ctx.missing("C16.M6", "issuer state", "cannot summarise the issuer's fields", config=C)
+    elif st6:
+        for (f6, sites6) in st6:
+            (fname6, line6, kind6, desc6) = sites6[0]
+            ctx.finding("C16.M6", fx.fns.get(imodel.ISSUE), "stale:%s" % f6, "issuer field `%s` is carried over from an earlier issuance (first access is a %s in %s): a reused issuer does not reproduce the output of a fresh one "
+                        "for the same claims, strategy and salts" % (f6, {"R": "read", "RMW": "read-modify-write"}[kind6], fname6), line=line6, config=C)
+    else:
+        ctx.ok("C16.M6", fx.fns.get(imodel.ISSUE), "no-carried-state", "every issuer field the issuance mutates is assigned whole before it is read: a reused issuer reproduces a fresh one", config=C)
     # ---- M5: "holder and verifier still recover the original claims": the verifier's unpacking clauses of C01.a / C01.c / C03.V6 (every
     # disclosed or visible value placed in the output is the walker's result; a matched disclosure is never dropped), re-judged on the
     # mock_salts MIR: the deterministic build must not lose or alter a claim on the way back
@@ -210,6 +222,9 @@ def m2(ctx, fx, I, C):
             for cf in reach:
                 for b, t in cf.calls():
                     if t.get("resolved") == fn.name:
+                        sites.append((cf, b))
+                    # handed on as a function item (`repeat_with(Self::decoy_digest)`): it runs (at most) where it is handed on
+                    elif any(isinstance(a, dict) and isinstance(a.get("const"), dict) and a["const"].get("fn") == fn.name for a in t.get("args") or []):
                         sites.append((cf, b))
                 if fn.kind == "closure" and fn.parent == cf.name:
                     # a closure runs (at most) where it is created and handed to an adaptor: the creation site stands for its call sites
